@@ -11,11 +11,12 @@ case "$PATCH" in
   -R:*) git -C $W/repo revert --no-commit "${PATCH#-R:}" >/dev/null 2>&1 || { echo "revert failed"; git -C /repo worktree remove --force $W/repo; rm -rf $W; exit 2; } ;;
   *) git -C $W/repo apply "$PATCH" || { echo "patch does not apply"; git -C /repo worktree remove --force $W/repo; rm -rf $W; exit 2; } ;;
 esac
-mkdir -p /tmp/mut_lean
-rsync -a --delete --exclude .lake/verif.lock /verif/lean/ /tmp/mut_lean/lean/
+ML=${MUT_LEAN:-/tmp/mut_lean}
+mkdir -p $ML
+rsync -a --delete --exclude .lake/verif.lock /verif/lean/ $ML/lean/
 for P in "$@"; do
   echo "== $P on mutated tree"
-  EPSIE_EVIDENCE_DIR=$W/evidence EPSIE_REPLAY_DIR=/tmp/mut_replays EPSIE_REPO=$W/repo EPSIE_LEAN_DIR=/tmp/mut_lean/lean /verif/check $P --tier ${TIER:-quick} 2>&1 | grep -v "^  " | tail -4
+  EPSIE_EVIDENCE_DIR=$W/evidence EPSIE_REPLAY_DIR=/tmp/mut_replays EPSIE_REPO=$W/repo EPSIE_LEAN_DIR=$ML/lean /verif/check $P --tier ${TIER:-quick} 2>&1 | grep -v "^  " | tail -4
   echo "   exit=$?"
 done
 git -C /repo worktree remove --force $W/repo
